@@ -5,7 +5,7 @@
 set -e
 cd "$(dirname "$0")/lean"
 exes=""
-for f in Driver/C[0-9][0-9].lean; do
-  [ -f "$f" ] && exes="$exes drv_$(basename "$f" .lean | tr 'C' 'c')"
+for m in $(grep -o 'Props\.C[0-9][0-9]' RkVerif.lean | sed 's/Props\.//'); do
+  [ -f "Driver/$m.lean" ] && exes="$exes drv_$(echo $m | tr 'C' 'c')"
 done
 lake build RkVerif $exes
